@@ -44,6 +44,7 @@ constexpr bool lem_c05_roundtrip(fixed_t x) { return floating_point_to_fixed<dou
 inline void inst_c05(float f, double d, fixed_t x)
   { (void)fixed_t(f); (void)fixed_t(d); (void)static_cast<float>(x); (void)static_cast<double>(x);
     (void)arithmetic_to_fixed<float,void>(f); (void)arithmetic_to_fixed<double,void>(d); (void)fixed_to_arithmetic<float>(x); (void)fixed_to_arithmetic<double>(x);
-    (void)detail::promote_to_fixed(f); (void)detail::promote_to_double(x); }
+    (void)detail::promote_to_fixed(f); (void)detail::promote_to_double(x);
+    (void)fixed_to_floating_point<float>(x); (void)fixed_to_floating_point<double>(x); (void)floating_point_to_fixed<float>(f); (void)floating_point_to_fixed<double>(d); }
 }
 }
